@@ -1074,19 +1074,25 @@ func (d *c12Dumper) val(v reflect.Value) {
 		}
 		d.b.WriteString("]")
 	case reflect.Map:
-		type kv struct{ k, v string }
+		// keys first (sorted by their dump), values afterwards in that order, so that the
+		// numbering of shared pointers does not depend on map iteration order
+		type kv struct {
+			k string
+			v reflect.Value
+		}
 		var items []kv
 		it := v.MapRange()
 		for it.Next() {
-			var kb, vb strings.Builder
+			var kb strings.Builder
 			(&c12Dumper{b: &kb, seen: d.seen}).val(it.Key())
-			(&c12Dumper{b: &vb, seen: d.seen}).val(it.Value())
-			items = append(items, kv{kb.String(), vb.String()})
+			items = append(items, kv{kb.String(), it.Value()})
 		}
 		sort.Slice(items, func(i, j int) bool { return items[i].k < items[j].k })
 		d.b.WriteString("map{")
 		for _, it := range items {
-			d.b.WriteString(it.k + "=" + it.v + ";")
+			d.b.WriteString(it.k + "=")
+			d.val(it.v)
+			d.b.WriteString(";")
 		}
 		d.b.WriteString("}")
 	case reflect.Struct:
@@ -1247,6 +1253,26 @@ func TestVerifC12(t *testing.T) {
 		c.linkModes = []string{"drop", "hold"}
 	})
 
+	if dump := os.Getenv("C12_DUMP"); dump != "" {
+		cfg := &specs[0].cfg
+		for i, path := range strings.Split(dump, "|") {
+			in := c12New(cfg, g)
+			for _, e := range strings.Split(path, ";") {
+				e = strings.TrimSpace(e)
+				if e == "" {
+					continue
+				}
+				obs, err := in.Apply(e, &mc.Env{})
+				fmt.Println("DUMP", i, e, "->", obs, err)
+			}
+			f, _ := os.Create(fmt.Sprintf("/tmp/c12-dump-%d.txt", i))
+			w := bufio.NewWriter(f)
+			in.writeState(w)
+			w.Flush()
+			f.Close()
+		}
+		return
+	}
 	results := map[string]mc.Result{}
 	for i := range specs {
 		sp := &specs[i]
